@@ -291,6 +291,9 @@ impl<T: VisitExpr> ExprVisitorRunner<T> {
     pub fn inner(self) -> T {
         self.inner
     }
+    pub fn inner_mut(&mut self) -> &mut T {
+        &mut self.inner
+    }
 }
 
 impl<T: VisitExpr> Visit for ExprVisitorRunner<T> {
